@@ -118,6 +118,8 @@ type PolicySpec struct {
 	PAdvance float64 `json:"pAdvance,omitempty"`
 	PctD     int     `json:"pctD,omitempty"`
 	Horizon  int64   `json:"horizon,omitempty"`
+	// every n-th atomic operation of moss is a scheduling point (before and after)
+	AtomicYield int `json:"atomicYield,omitempty"`
 }
 
 // Violation is what an oracle reports.
